@@ -44,7 +44,7 @@ package abci
 //@   props C01
 //@   requires s != nil
 //@   ensures old(s.initState) == nil ==> fresh(s.canonicalState) && s.canonicalState != nil
-//@   modifies s.proposal, s.canonicalState, *old(s.proposal), kvState()
+//@   modifies anyOf(s.proposal), anyOf(s.canonicalState), *old(s.proposal), kvState()
 //@   ensures s.proposal != nil && fresh(s.proposal) && s.proposal.resultsBeginBlock == nil && s.proposal.resultsDeliverTx == nil && s.proposal.resultsEndBlock == nil && s.proposal.header == nil && s.proposal.hash == nil
 //@   note installs a fresh proposal state over a new overlay of the canonical state; nothing of the previous proposal's results survives (tree construction is outside the contracts)
 
